@@ -406,6 +406,10 @@ def arr_write_all(interp, arr: SArr, new: SArr):
     if not arr.root().writeable and arr.base is None and not arr.writeable:
         raise PyRaise(ValueError("assignment destination is read-only"))
     snap = new._freeze() if isinstance(new, SArr) else None
+    root0 = arr.root()
+    if getattr(root0, "prov", "fresh") != "fresh" and not getattr(interp.cfg, "modifies_args", False):
+        # frame obligation: the target has no licence to write into an array of its caller
+        interp.ctx.ledger.record(f"{interp.ctx.target}::frame.no-write-to-caller-arrays", "frame", "refuted", "provenance", 0.0, detail=f"in-place write into caller's array {root0.tag}")
     if arr.base is None:
         if not arr.writeable:
             raise PyRaise(ValueError("assignment destination is read-only"))
